@@ -13,7 +13,7 @@ by the driver on the observation stream of the real Go implementation:
 * no operation of the module's battery aborts under a stored (hence validated) set.
   Three classes of aborts are genuine defects of the code and are tagged, nothing else is:
     F-par-1  farm tax rate outside [0,1] while `Params.Validate` does not check it (regenerated fact)
-    F-par-2  coinswap pool-creation-fee / token issue-base-fee denomination is not validated
+    F-par-2  coinswap pool-creation-fee / token issue-base-fee denomination is not validated (regenerated facts)
     F-par-3  an amount parameter ≥ 2^128 (checked-arithmetic overflow in the handler)
 
 and (c) the statement over the regenerated handler table.  Core Lean only.
@@ -79,8 +79,6 @@ def genesisFails (pv ig : String) (post : AnyParams) : List String :=
   (if ig == "ok" && pv != "valid" then ["genesis-stored-invalid-params"] else []) ++
   (if ig == "ok" && !isValid post then ["genesis-stored-fail-model-validate"] else [])
 
-def pow2_128 : Int := 340282366920938463463374607431768211456
-
 def big (i : Option Int) : Bool := match i with | some a => decide (pow2_128 ≤ a) | none => false
 
 /-- an amount parameter of extreme magnitude (≥ 2^128) -/
@@ -104,10 +102,10 @@ def abortClass (stored : AnyParams) : Option String :=
     if !farmValidatesTaxRate && decOutside01 p.taxRate then some "F-par-1"
     else if extremeMagnitude stored then some "F-par-3" else none
   | .coinswap p =>
-    if !validDenom p.poolCreationFee.denom then some "F-par-2"
+    if !coinswapValidatesFeeDenom && !validDenom p.poolCreationFee.denom then some "F-par-2"
     else if extremeMagnitude stored then some "F-par-3" else none
   | .token p =>
-    if !validDenom p.issueTokenBaseFee.denom then some "F-par-2"
+    if !tokenValidatesFeeDenom && !validDenom p.issueTokenBaseFee.denom then some "F-par-2"
     else if extremeMagnitude stored then some "F-par-3" else none
   | _ => if extremeMagnitude stored then some "F-par-3" else none
 
